@@ -194,7 +194,7 @@ def get_key_format(key, is_private=None):
             else:
                 networks = network_by_value('prefix_wif', key_hex[:2])
                 if networks:
-                    if key_hex[-10:-8] == '01':
+                    if len(key_hex) == 76 and key_hex[-10:-8] == '01':
                         key_format = 'wif_compressed'
                     else:
                         key_format = 'wif'
@@ -1173,7 +1173,7 @@ class Key(object):
                 #         _logger.warning("Current network %s is different from the one found in key: %s" %
                 #                         (network, found_networks[0]))
                 #         self.network = Network(found_networks[0])
-                if key[-1:] == b'\x01':
+                if len(key) == 34 and key[-1:] == b'\x01':
                     self.compressed = True
                     key = key[:-1]
                 else:
